@@ -196,13 +196,25 @@ type c18Struct struct {
 	t    *sigT
 }
 
-func c18GenStructs(r *Rand) []c18Struct {
+func c18GenStructs(r *Rand) []c18Struct { return c18GenStructsFrom(r, false) }
+
+// clash: names are drawn with repetition, the names of the interfaces among them
+func c18GenStructsFrom(r *Rand, clash bool) []c18Struct {
 	names := []string{"Point", "Foo", "T_1", "List<double>", "Map<K>", "Info2", "a", "i", "anything", "int8_t", "strange"}
 	for i := len(names) - 1; i > 0; i-- {
 		j := r.Intn(i + 1)
 		names[i], names[j] = names[j], names[i]
 	}
+	if clash {
+		pool := []string{"Point", "Point", "Foo", "Alpha", "Beta", "Foo_0"}
+		for i := range names {
+			names[i] = pool[r.Intn(len(pool))]
+		}
+	}
 	n := r.Intn(4)
+	if clash {
+		n = 2 + r.Intn(3)
+	}
 	var out []c18Struct
 	for i := 0; i < n; i++ {
 		k := 1 + r.Intn(3)
@@ -379,6 +391,52 @@ func c18Roundtrip(metas []c18Meta) (string, string) {
 
 var c18LastDiff string
 
+// c18EraseNames drops the <Name,field,…> annotations of a signature: what is left is the layout
+func c18EraseNames(sig string) string {
+	var b strings.Builder
+	depth := 0
+	for i := 0; i < len(sig); i++ {
+		switch c := sig[i]; {
+		case c == '<':
+			depth++
+		case c == '>':
+			depth--
+		case depth == 0:
+			b.WriteByte(c)
+		}
+	}
+	return b.String()
+}
+
+// c18RoundtripLayout: like c18Roundtrip, the signatures compared without their names
+func c18RoundtripLayout(metas []c18Meta) string {
+	objs := map[string]object.MetaObject{}
+	want := map[string]bool{}
+	for _, m := range metas {
+		mo := m.metaObject()
+		objs[m.name] = mo
+		want[c18EraseNames(c18Describe(mo))] = true
+	}
+	var buf bytes.Buffer
+	return safely(func() string {
+		if err := idl.GenerateIDL(&buf, "pkg", objs); err != nil {
+			return "generate-error:" + err.Error()
+		}
+		back, err := idl.ParseIDL(bytes.NewReader(buf.Bytes()))
+		if err != nil {
+			return "parse-error"
+		}
+		for _, b := range back {
+			d := c18EraseNames(c18Describe(b))
+			if !want[d] {
+				c18LastDiff = "parsed back " + d + " idl: " + strings.ReplaceAll(buf.String(), "\n", "\\n")
+				return "differs"
+			}
+		}
+		return "same"
+	})
+}
+
 // canonical one-line description of generated meta-objects for the op line
 func c18Line(metas []c18Meta) string {
 	var parts []string
@@ -464,6 +522,7 @@ func init() {
 	executors["idl.type"] = execIdlType
 	executors["idl.actions"] = execIdlActions
 	executors["idl.pkg"] = execIdlPkg
+	executors["idl.gen"] = execIdlGen
 	executors["idl.rt"] = func(a []string) string { return "replay-needs-the-generator" }
 	children["idl.fuzz"] = childIdlFuzz
 	executors["idl.fuzz"] = func(a []string) string {
@@ -572,6 +631,35 @@ func runC18(r *Rand, tier string, o *Out) {
 		o.Count("roundtrip:" + res)
 		if res != "same" {
 			o.Fail("meta-object does not survive IDL: "+res, c18Line(metas)+" => "+res+" "+c18LastDiff+" idl: "+strings.ReplaceAll(text, "\n", "\\n"))
+		}
+	}
+	// from the meta-objects to the text, byte for byte — struct names that clash included (a third of the cases)
+	for i := 0; i < m; i++ {
+		clash := i%3 == 0
+		structs := c18GenStructsFrom(r, clash)
+		var metas []c18Meta
+		for j, k := 0, 1+r.Intn(2); j < k; j++ {
+			metas = append(metas, c18GenMeta(r, j, structs))
+		}
+		out := o.Do("P", "idl.gen "+c18Line(metas), true)
+		if clash {
+			o.Count("generate:clashing-struct-names")
+		} else {
+			o.Count("generate:distinct-struct-names")
+		}
+		if !clash && len(out) > 16 {
+			// and what is written is read back: the layouts survive even where names had to change
+			if res, text := c18Roundtrip(metas); res != "same" {
+				o.Fail("meta-object does not survive IDL: "+res, c18Line(metas)+" => "+res+" "+c18LastDiff+" idl: "+strings.ReplaceAll(text, "\n", "\\n"))
+			}
+		}
+		if clash {
+			if res := c18RoundtripLayout(metas); res != "same" {
+				o.Fail("a name clash changes the layout of a signature: "+res, c18Line(metas)+" => "+res+" "+c18LastDiff)
+			} else if res, _ := c18Roundtrip(metas); res != "same" {
+				// the layouts are the same, the names are not: the IDL has one name space (known finding)
+				o.Fail("structs renamed on a name clash", c18Line(metas)+" => "+res+" "+c18LastDiff)
+			}
 		}
 	}
 	// outside the class: what the IDL cannot express (known findings, each with its witness)
